@@ -1,7 +1,10 @@
 package main
 
 import (
+	"encoding/hex"
 	"fmt"
+	"regexp"
+	"strings"
 	"time"
 
 	"github.com/nalgeon/redka"
@@ -176,7 +179,163 @@ func c10PreparedCommands(db *redka.DB) {
 	}
 }
 
+// c10PurgeEquivalence: every kind of operation, on a database whose keys have all expired but are
+// still stored, gives the result and leaves the visible content that it gives after those keys
+// have been physically removed (the statement of C10_reads_do_not_see_expired_keys and
+// C10_writes_do_not_see_expired_keys_either, asked of the code for every operation kind).
+func c10PurgeEquivalence(seed int64) {
+	pool := newCasePool(seed+13, allFamilies, 30, func(p *hx.Profile) {
+		p.MinSteps, p.MaxSteps = 8, 20
+		p.Expiry = false
+		p.ExpireProb = 0
+	}, func(st *hx.Step) bool {
+		if st.Block || st.Gen != nil || len(st.Ops) != 1 {
+			return false
+		}
+		switch st.Ops[0].Name {
+		case "EPop", "ERandom", "KRandom", "KLen", "KDeleteExpired", "KDeleteAll":
+			return false // random choices; Len is the recorded finding; the last two are about stored rows
+		}
+		return len(st.Ops[0].RelTTL) == 0
+	})
+	past := time.Now().Add(-time.Hour)
+	for _, kind := range pool.kinds {
+		for try := 0; try < 4 && len(sum.Failures) == 0; try++ {
+			// (two occurrences that change or find something while the keys are live, then three
+			// that are refused or find nothing there - e.g. a rename onto a key of another type,
+			// which succeeds once that key has expired)
+			pred := findsSomething
+			if try >= 2 {
+				pred = func(c opCase) bool { return !findsSomething(c) }
+			}
+			c, found := pool.TakeWhere(kind, 25, pred)
+			if !found {
+				break
+			}
+			if len(c.Prefix) < 3 {
+				continue
+			}
+			for variant := 0; variant < 2 && len(sum.Failures) == 0; variant++ {
+				// variant 0: every key has expired; variant 1: every key but the first one the target names
+				keep := ""
+				if variant == 1 {
+					for _, f := range strings.Fields(c.Target.Ops[0].Tok)[1:] {
+						if strings.HasPrefix(f, "s") {
+							if b, err := hex.DecodeString(f[1:]); err == nil {
+								keep = string(b)
+								break
+							}
+						}
+					}
+					if keep == "" {
+						break
+					}
+				}
+				var xs [2]*hx.Exec
+				var res [2]string
+				var content [2]string
+				okc := true
+				for side := 0; side < 2; side++ {
+					x, err := hx.OpenMem(fmt.Sprintf("c10pe_%d", side))
+					if err != nil {
+						fail("harness", err.Error(), nil)
+						return
+					}
+					xs[side] = x
+					for _, st := range c.Prefix {
+						for _, op := range st.Ops {
+							if op.Name == "EPop" || op.Name == "ERandom" || op.Name == "KRandom" {
+								continue
+							}
+							runOpDB(x, op)
+						}
+					}
+					keys, err := x.DB.Key().Keys("*")
+					if err != nil || len(keys) == 0 {
+						okc = false
+					}
+					expired := 0
+					for _, k := range keys {
+						if variant == 1 && k.Key == keep {
+							continue
+						}
+						_ = x.DB.Key().ExpireAt(k.Key, past)
+						expired++
+					}
+					if expired == 0 {
+						okc = false
+					}
+					if side == 1 {
+						_, _ = x.DB.Key().DeleteExpired(0)
+					}
+					res[side] = runOpDB(x, c.Target.Ops[0])
+					ct, _ := hx.ContentOfDB(x.DB)
+					// the visible content: without the keys whose expiry instant has passed
+					gone := map[string]bool{}
+					nowMs := time.Now().UnixMilli()
+					for name, et := range ct.ETimes {
+						if et <= nowMs {
+							gone[strings.ToLower(name)] = true
+						}
+					}
+					content[side] = withoutKeys(ct.Text, gone)
+				}
+				audit := "ok"
+				if okc {
+					audit, _ = hx.AuditAndContinue(xs[0], &hx.History{ID: 1})
+				}
+				xs[0].Close()
+				xs[1].Close()
+				if !okc {
+					continue
+				}
+				sum.Cases++
+				count("purge_equivalence_" + kind)
+				// (times inside results - modification times of re-created keys - differ between two runs)
+				if stripTimes(res[0]) != stripTimes(res[1]) || content[0] != content[1] {
+					fail("c10-expired-visible", fmt.Sprintf("[%s] on keys that have expired but are still stored (%s): %s, content %s; after the expired keys were physically removed: %s, content %s",
+						c.Target.Ops[0].Tok, []string{"all of them", "all but the first one it names"}[variant], res[0], content[0], res[1], content[1]), map[string]any{"op": c.Target.Ops[0].Tok, "prefix": describeSteps(c.Prefix)})
+				} else if audit != "ok" {
+					fail("c10-expired-trace", fmt.Sprintf("[%s] on keys that have all expired but are still stored left a database that breaks the structural rules: %s", c.Target.Ops[0].Tok, audit), nil)
+				}
+			}
+		}
+	}
+}
+
+// findsSomething: on the live database the case's target changes the content, or returns
+// something other than "nothing there".
+func findsSomething(c opCase) bool {
+	x, err := hx.OpenMem("c10fs")
+	if err != nil {
+		return false
+	}
+	defer x.Close()
+	for _, st := range c.Prefix {
+		runStepRaw(x, st)
+	}
+	before, _ := hx.ContentOfDB(x.DB)
+	res := runOpDB(x, c.Target.Ops[0])
+	after, _ := hx.ContentOfDB(x.DB)
+	if before.Text != after.Text {
+		return true
+	}
+	switch strings.TrimSpace(res) {
+	case "ok i0", "ok b0", "ok _", "ok [ ]", "ok { }", "ok s", "ok n":
+		return false
+	}
+	return !strings.Contains(res, "notfound") && !strings.HasPrefix(res, "err ")
+}
+
+var timeRe = regexp.MustCompile(`[iM]1[6-9][0-9]{11}`)
+
+func stripTimes(s string) string { return timeRe.ReplaceAllString(s, "T") }
+
 func runC10Boundary(seed int64, n int) {
+	c10PurgeEquivalence(seed)
+	if len(sum.Failures) > 0 {
+		return
+	}
 	x, err := hx.OpenMem("c10b")
 	if err != nil {
 		fail("harness", err.Error(), nil)
